@@ -1904,8 +1904,10 @@ class LazyStackedTensorDict(TensorDictBase):
 
     def apply_(self, fn: Callable, *others, **kwargs):
         others = (other.unbind(self.stack_dim) for other in others)
+        # propagate_lock is a keyword of apply: it may be among kwargs
+        kwargs.setdefault("propagate_lock", True)
         for td, *_others in _zip_strict(self.tensordicts, *others):
-            td._fast_apply(fn, *_others, inplace=True, propagate_lock=True, **kwargs)
+            td._fast_apply(fn, *_others, inplace=True, **kwargs)
         return self
 
     def _multithread_apply_nest(self, *args, **kwargs):
